@@ -12,3 +12,16 @@ Inductive fop := FSetShutdown | FSetKillIfGiven | FSetBroken.
 
 (* _ExecutorManagerThread.is_shutting_down *)
 Inductive bexp := BGlobalShutdown | BExecutorNone | BFlagShutdown | BFlagBroken | BNot (a : bexp) | BAnd (a b : bexp) | BOr (a b : bexp).
+
+(* process_executor._python_exit: the hook run when the interpreter exits *)
+Inductive xop := XSetGlobalShutdown | XSnapshotManagers | XWakeEachUnderItsShutdownLock | XJoinEachUnderTheGlobalLock.
+Definition xop_eqb (a b : xop) : bool :=
+  match a, b with
+  | XSetGlobalShutdown, XSetGlobalShutdown | XSnapshotManagers, XSnapshotManagers
+  | XWakeEachUnderItsShutdownLock, XWakeEachUnderItsShutdownLock | XJoinEachUnderTheGlobalLock, XJoinEachUnderTheGlobalLock => true
+  | _, _ => false end.
+(* position of the first occurrence *)
+Fixpoint xpos (o : xop) (l : list xop) : option nat :=
+  match l with [] => None | x :: r => if xop_eqb o x then Some 0 else option_map S (xpos o r) end.
+Definition xbefore (a b : xop) (l : list xop) : bool :=
+  match xpos a l, xpos b l with Some i, Some j => Nat.ltb i j | _, _ => false end.
